@@ -127,3 +127,30 @@ def make_vector(rng, geom, ov_end, ov_start, placeholder_len=10, backbone_len=30
 def rotate_right(seq, k):
     k %= len(seq)
     return seq[-k:] + seq[:-k] if k else seq
+
+
+def make_vector2(rng, geom, ov_end, ov_start, geom2, up2, down2, placeholder_len=10, backbone_len=30):
+    """A level-l vector whose retained backbone turns the assembled product into
+    a valid level-(l+1) module for the enzyme `geom2` with overhangs (up2, down2):
+
+      [ov_end] gap rc(site) placeholder site gap [ov_start x1 down2 gap2 rc(site2) backbone site2 gap2 up2 x2]
+
+    In the circular product the insert sits between x2 and ov_start, i.e. inside
+    the target of   site2 gap2 (up2)(x2 insert ov_start x1)(down2) gap2 rc(site2)."""
+    site, gap = geom["site"], geom["gap"]
+    site2, gap2 = geom2["site"], geom2["gap"]
+    forb = {site, rc(site), site2, rc(site2)}
+    for _ in range(300):
+        g1, g2 = rand_dna(rng, gap), rand_dna(rng, gap)
+        h1, h2 = rand_dna(rng, gap2), rand_dna(rng, gap2)
+        ph = _clean(rng, placeholder_len, forb)
+        backbone = _clean(rng, max(2, backbone_len), forb)
+        x1, x2 = _clean(rng, rng.randint(1, 6), forb), _clean(rng, rng.randint(1, 6), forb)
+        seq = ov_end + g1 + rc(site) + ph + site + g2 + ov_start + x1 + down2 + h1 + rc(site2) + backbone + site2 + h2 + up2 + x2
+        ok = count_circular(seq, site) == 1 and count_circular(seq, rc(site)) == 1 and count_circular(seq, site2) == 1 and count_circular(seq, rc(site2)) == 1
+        if ok:
+            b = len(ov_end) + gap + len(site) + len(ph) + len(site) + gap
+            seg = {"retained": [b, len(seq)], "target": [b + len(ov_start), len(seq)],
+                   "discarded": [len(ov_end) + gap + len(site), len(ov_end) + gap + len(site) + len(ph)]}
+            return seq, seg
+    raise RuntimeError("cannot build two-level vector")
